@@ -304,6 +304,19 @@ def binaries : List Row :=
      (paramList (.arg 0) (.arg 1) .absent ++ [("body.size", .val "#0")]),
    obj "expr_factory::make_elementary_substitution(Parameter,Expr)" .Substitution .generative ["Parameter", "Expr"] [],
    obj "expr_factory::make_general_substitution()" .Substitution .generative [] [],
+   -- A general substitution is filled through its builder AFTER creation (`subst(p, v)`).  Read through `operator[]` it answers,
+   -- for every parameter, the value given for it LAST; a parameter never bound maps to itself (interface 1370-1372; impl 1878-1884)
+   obj "General_substitution::subst(Parameter,Expr)" .Substitution .generative ["Parameter", "Expr", "Parameter"]
+     [("image", .arg 1), ("unbound", .arg 2)],
+   -- subst(p1, e1), subst(p2, e2), subst(p1, e3): p1 reads e3 (the latest binding), p2 still e2, an unbound parameter itself
+   obj "General_substitution::subst(Parameter,Expr)#rebound" .Substitution .generative ["Parameter", "Expr", "Parameter", "Expr", "Expr", "Parameter"]
+     [("image", .arg 4), ("other", .arg 3), ("unbound", .arg 5)],
+   -- subst(p, e1), read (e1), subst(p, e2), read: e2
+   obj "General_substitution::subst(Parameter,Expr)#rebound-after-read" .Substitution .generative ["Parameter", "Expr", "Expr"]
+     [("first_read", .arg 1), ("image", .arg 2)],
+   -- the same read through the instantiation that was given the substitution before any binding was made
+   obj "General_substitution::subst(Parameter,Expr)#through-instantiation" .Substitution .generative ["Expr", "Parameter", "Expr", "Expr"]
+     [("pattern", .arg 0), ("image", .arg 3)],
    -- asm has type void, a static assertion type bool (interface 886-893, 1358-1366)
    node "expr_factory::make_asm_expr(String)" .Asm .generative ["String"] (some (.const .k_void)) [("operand", .arg 0), ("text", .arg 0)],
    node "expr_factory::make_static_assert_expr(Expr,Optional<String>)" .Static_assert .generative ["Expr", "String"] (some (.const .k_bool))
@@ -730,10 +743,116 @@ def forms : List Row := [
   obj "form_factory::make_field_designator(Identifier)" .Field_designator .generative ["Identifier"] [("name", .arg 0)],
   obj "form_factory::make_slot_designator(Expr)" .Slot_designator .generative ["Expr"] [("index", .arg 0)]]
 
-/-- The documented wiring of every factory, in the order of the entries of `harness/c02probe.cxx`. -/
-def expectedWiring : Table :=
+/-- The documented wiring of every factory entry called with operands from the pools of distinct nodes (the BASE rows), in the order
+    of the entries of `harness/c02probe.cxx`. -/
+def baseWiring : Table :=
   namesAndSymbols ++ unaries ++ binaries ++ types ++ directivesAndStatements ++
   [node "Block::new_handler(Name,Type)#body-typed" .Handler .generative ["Region", "Block", "Name", "Type", "Type"] (some (.arg 4)) (handlerP (.arg 4))] ++
   containers ++ forms
+
+/-! ### Operand forms
+
+What a node reports about an operand does not depend on how that operand was built, on the state it is in, or on when the client
+fills it: the statement of the property quantifies over ALL operands.  For every base row the probe therefore runs the same
+factory again with operands of particular forms, and the documented row is the base row itself under another key:
+
+* `#nested` — an `Expr` operand of a factory that builds expressions (a `Type` operand of a factory that builds types) is a node
+  that an EARLIER CALL OF THE SAME FACTORY FUNCTION returned (any overload, any documented form): a rewrite whose target is a
+  rewrite, `As_type` over a non-built-in `As_type` (natural and foreign transfer), a cast of a cast …; one slot at a time and all
+  slots together.  Not for `Qualified`, whose nesting is the documented normal form of the `#merge` row.
+* `#resolved-operand` — an `Expr` operand is an id-expression that HAS A RESOLUTION: made by `make_id_expr(const Decl&)` from any
+  form of declaration (a parameter with a default argument, a redeclaration, an enumerator with an initializer …), or made from a
+  name and resolved by the client (`decls`) before the call, or after the call; the type given to the factory is another node than
+  the id-expression's type.
+* `#reserved-spelling` — `String` / word / `Name` / `Identifier` operands that spell a RESERVED WORD (`nullptr`, `true`, `int`, `this`,
+  `C++` …: process-wide constants of the string pool) next to a `Type` operand that is not the "natural" type of any such word
+  (`int`, `const bool`, a pointer, `As_type` over an alias of `decltype(nullptr)` …).  When the spelling is passed as a word, the
+  String the node reports is that process-wide constant, which exists before the call: it is recorded as one more operand (the
+  String `get_string` answers for the word) and is what `second()` / `string()` must be.
+* `#list-filled-later` — an `Expr_list` operand (and a `Block` next to it) is EMPTY when the node is made and filled by the client
+  afterwards (before or after the first read), or filled before and grown afterwards: supplied is supplied — the part reads as
+  present and as that very list.
+-/
+
+def isTypeKind : Kind → Bool
+  | .Array | .Class | .Decltype | .As_type | .Enum | .Tor | .Function | .Namespace | .Pointer | .Ptr_to_member | .Product
+  | .Qualified | .Reference | .Rvalue_reference | .Sum | .Forall | .Union | .Auto | .Closure => true
+  | _ => false
+
+/-- the row `r` under the key of one of its operand forms -/
+def form (r : Row) (suffix : String) : Row := { r with key := r.key ++ suffix }
+
+def nestable (r : Row) : Bool :=
+  r.kind != .Qualified && ((r.typ.isSome && r.sorts.contains "Expr") || (isTypeKind r.kind && r.sorts.contains "Type"))
+
+def spelled (r : Row) : Bool :=
+  r.sorts.contains "Type" &&
+    (r.sorts.contains "String" || r.sorts.contains "word_view" || r.sorts.contains "Name" || r.sorts.contains "Identifier")
+
+/-- A reserved spelling passed as a word: the String reported is the process-wide constant (one more operand, the last). -/
+def reservedForm (r : Row) : Row :=
+  if r.sorts.contains "word_view" then
+    let n := r.sorts.length
+    { r with key := r.key ++ "#reserved-spelling", sorts := r.sorts ++ ["String"],
+             acc := (r.acc.filter fun (a, _) => !(a == "second.kind" || a == "second.characters" || a == "second.size")).map fun (a, s) =>
+                      if a == "second" || a == "string" then (a, Src.arg n) else (a, s) }
+  else form r "#reserved-spelling"
+
+/-- the operand forms under which the entry of base row `r` is run again, in the order the probe runs them -/
+def operandForms (r : Row) : List Row :=
+  (if nestable r then [form r "#nested"] else []) ++
+  (if r.sorts.contains "Expr" then [form r "#resolved-operand"] else []) ++
+  (if spelled r then [reservedForm r] else []) ++
+  (if r.sorts.contains "Expr_list" && r.kind != .Expr_list then [form r "#list-filled-later"] else [])
+
+/-- The documented wiring: every base row followed by its operand forms. -/
+def expectedWiring : Table := baseWiring.flatMap fun r => r :: operandForms r
+
+/-! ### Parts supplied through a builder after creation (`links` of the model): the latest call wins -/
+
+/-- `n.part = v` / `n.subst(p, v)` … : one builder call on node `id` for the part read under accessor `a`. -/
+def setLink (s : State) (id : Nat) (a : String) (v : Val) : State :=
+  { nodes := s.nodes.modify id fun n => { n with links := (a, v) :: n.links } }
+
+/-- a history of builder calls on one node, oldest first -/
+def setLinks (s : State) (id : Nat) (calls : List (String × Val)) : State :=
+  calls.foldl (fun st c => setLink st id c.1 c.2) s
+
+
+/-! ### Lemmas shared by `IprProps/C02.lean` and `IprProps/C09.lean` (they do not depend on the regenerated table) -/
+
+/-- Every operand form of a base row documents exactly the base row's sources (unless a reserved spelling is passed as a word). -/
+theorem operandForms_same (r f : Row) (hf : f ∈ operandForms r) (hw : "word_view" ∉ r.sorts) :
+    f.kind = r.kind ∧ f.cat = r.cat ∧ f.storage = r.storage ∧ f.sorts = r.sorts ∧ f.typ = r.typ ∧ f.acc = r.acc := by
+  unfold operandForms at hf
+  simp only [List.mem_append] at hf
+  have hform : ∀ sfx, f = form r sfx → f.kind = r.kind ∧ f.cat = r.cat ∧ f.storage = r.storage ∧ f.sorts = r.sorts ∧ f.typ = r.typ ∧ f.acc = r.acc := by
+    intro sfx h; subst h; simp [form]
+  rcases hf with ((h | h) | h) | h
+  · split at h
+    · exact hform _ (by simpa using h)
+    · simp at h
+  · split at h
+    · exact hform _ (by simpa using h)
+    · simp at h
+  · split at h
+    · have : f = reservedForm r := by simpa using h
+      subst this
+      simp [reservedForm, hw, form]
+    · simp at h
+  · split at h
+    · exact hform _ (by simpa using h)
+    · simp at h
+
+theorem setLink_getElem? (s : State) (id : Nat) (a : String) (v : Val) (j : Nat) :
+    (setLink s id a v).nodes[j]? = (s.nodes[j]?).map (fun n => if id = j then { n with links := (a, v) :: n.links } else n) := by
+  unfold setLink
+  simp only [List.getElem?_modify]
+  cases s.nodes[j]? <;> simp
+
+theorem read_setLink_self (T : Table) (s : State) (id : Nat) (a : String) (v : Val) (fuel : Nat) (h : id < s.nodes.length) :
+    read T (setLink s id a v) (fuel + 1) id a = v := by
+  simp only [read, setLink_getElem?, List.getElem?_eq_getElem h]
+  simp [List.lookup]
 
 end Ipr.Graph.Spec
